@@ -16,7 +16,7 @@ QUICK = [
     ("chk_combine_leaf_and_live_counts", 40), ("chk_combine_operations", 60), ("chk_invariant_preserved", 90),
     ("chk_walk_serial_step", 60), ("chk_visit_leaves_serial_step", 40),
     ("chk_closed_form_recurrence", 60), ("chk_unfiltered_counts", 150),
-    ("chk_e2e_depth1", 120),
+    ("chk_e2e_depth1", 120), ("chk_e2e_unfiltered_generic", 300), ("chk_e2e_unfiltered_toast", 300),
 ]
 THOROUGH = QUICK + [("chk_subpyramid_toast_userfilter_ancestors_wide", 900), ("chk_subpyramid_toast_userfilter_wide", 900), ("chk_e2e_depth2", 900), ("chk_e2e_depth2_apex1", 900), ("chk_e2e_depth2_apex2_q0", 900), ("chk_e2e_depth2_apex2_q1", 900), ("chk_e2e_depth2_apex2_q2", 900), ("chk_e2e_depth2_apex2_q3", 900), ("chk_e2e_depth2_pair02", 1500), ("chk_e2e_depth2_pair3", 1700)]
 
